@@ -193,6 +193,10 @@ func init() {
 			pillarDetailCase(c)
 			liquidityEpochCase(c)
 		}
+		// ---- consensus points: period points -> epoch point on real, cached storage.Point objects
+		for i := 0; i < c.N/10+1; i++ {
+			pointsFoldCase(c)
+		}
 	})
 }
 
